@@ -38,8 +38,11 @@ def run(rep, tier, seed):
             if hit: rep.add_structural(r['name'], 'fails', r['detail'] + ' ; confirmed natively by the adjoint contract')
             else:
                 # a structural candidate is a violation only after a native run reproduced a failure of that recording site
-                conf = confirm_sig(f)
-                if conf:
+                conf = confirm_sig(f, r)
+                if isinstance(conf, tuple):
+                    # recording through this site raises before a node exists: no trace can contain a node with this argument layout
+                    rep.add_structural(r['name'], 'holds', r['detail'] + ' ; vacuous: ' + conf[1])
+                elif conf:
                     rep.add_structural(r['name'], 'fails', r['detail'] + ' ; confirmed natively: ' + conf)
                     rep.violation('SIG:' + f, 'signature', 'pullback signature does not conform to the tracer call: %s ; native run: %s' % (r['detail'], conf), {'kind': 'SIG', **r, 'native': conf})
                 else:
@@ -81,10 +84,21 @@ def uses_bad(p, bad_ops):
     return False
 
 
-def confirm_sig(fname):
-    """try to exercise the recording site natively: returns a description of the failure, or None"""
+def confirm_sig(fname, r=None):
+    """try to exercise the recording site natively: returns a description of the failure, None (could not be exercised), or
+    ('unreachable', why) when recording through that very site raises for every kind of `out` (no node is ever created there)"""
     import numpy
     a = T.A()
+    if fname == 'sum' and r is not None and 'out' in r.get('detail', '').split('recorded args')[-1]:
+        x = a.UTPM(numpy.arange(1., 7.).reshape(2, 1, 3) / 4.); raised = []
+        for mk in (lambda: a.UTPM(numpy.zeros((2, 1))), lambda: a.Function(a.UTPM(numpy.zeros((2, 1)))), lambda: numpy.zeros(())):
+            cg = a.CGraph(); fx = a.Function(x); o_ = mk(); n0 = len(cg.functionList)
+            try: fx.sum(None, None, o_)
+            except NotImplementedError as e: raised.append(len(cg.functionList) == n0)
+            except Exception: raised.append(False)
+            else: raised.append(False)
+        if raised and all(raised): return ('unreachable', 'Function.sum(out=...) raises NotImplementedError while recording (UTPM.sum does not implement out=) and records no node')
+        return None
     try:
         x = a.UTPM(numpy.arange(1., 7.).reshape(2, 1, 3) / 4.)
         cg = a.CGraph(); fx = a.Function(x)
